@@ -2,17 +2,27 @@ import Gomjml.Core.Layout
 import Gomjml.Core.Lexer
 import Driver.CacheP
 import Driver.SfP
+import Gomjml.Core.Cli
 /-! Line-protocol driver (E3): first word selects a sub-protocol, one output line per input line.
     Imports only core-only Model/Spec modules so that it links as a `lean_exe`. -/
 open Gomjml
 
 namespace Driver
 
+def cliHandle (args : List String) : String :=
+  match args with
+  | [r, l, o, w] =>
+    let lib : Gomjml.Cli.Lib := if l == "ok" then .ok "H" else if l == "val" then .validation "H" else .failed
+    let out := Gomjml.Cli.cli ⟨r == "1", lib, o == "1", w == "1"⟩
+    s!"exit={out.exit} stdout={if out.stdout == "" then "-" else out.stdout} stderr={if out.stderr then 1 else 0} file={match out.file with | some f => f | none => "-"}"
+  | _ => "bad-request"
+
 def handle (line : String) : String :=
   match line.splitOn " " with
   | ["ping"] => "pong"
   | "cache" :: args => Driver.CacheP.handle args
   | "sf" :: args => Driver.SfP.handle args
+  | "cli" :: args => cliHandle args
   | _ => "bad-request"
 
 partial def loop (hin hout : IO.FS.Stream) : IO Unit := do
